@@ -10,7 +10,7 @@ from contracts.c20_handlers import Response
 Any = Opaque("Any")
 classdef("FlaskRequest", fields=dict(args=Map(Str, Any)))
 classdef("FlaskHeaders", fields={})
-classdef("FlaskResponse", fields=dict(headers=Ref("FlaskHeaders"), body=Bytes))
+classdef("FlaskResponse", bases=["HttpAnswer"], fields=dict(headers=Ref("FlaskHeaders"), body=Bytes))
 module_state("liquer.server.blueprint", dict(request=Ref("FlaskRequest")))
 FR = Ref("FlaskResponse")
 
